@@ -115,7 +115,7 @@ def _inst(tier):
     out = []
     for kind in KINDS:
         for p, e in ((1, 0), (1, 1), (2, 1)) if tier == "quick" else ((1, 0), (1, 1), (2, 0), (2, 1), (2, 2)):
-            out.append({"kind": kind, "p": p, "e": e, "P": 1 if tier == "quick" else 2})
+            out.append({"kind": kind, "p": p, "e": e, "P": 1, "gran": "coarse" if tier == "quick" else "fine"})
     return out
 
 
@@ -125,9 +125,9 @@ _BASE = {}
 @harness(instances=_inst, D=I(1, 4), k=I(0, 2), p0=I(0, 100000), pos=I(0, 100000, n=lambda i: i["P"] - 1), tgt=I(0, 1, n=lambda i: i["P"]),
          timeout=(270, 1800), stock=False)
 def h_threaded(a, inst):
-    gate.GRANULARITY = "coarse"
+    gate.GRANULARITY = inst.get("gran", "coarse")
     vals = (gate.concrete(a.D, 1, 4), gate.concrete(a.k, 0, 2))
-    key = (inst["kind"], inst["p"], inst["e"], vals)
+    key = (inst["kind"], inst["p"], inst["e"], inst.get("gran"), vals)
     if key not in _BASE:
         with gate.untraced():
             _BASE[key] = run_once(inst, vals, [])
